@@ -2,6 +2,7 @@
 import re
 
 from .. import model
+from ..exact import frac
 from ..drive import exc_sig, ProgressBound
 
 
@@ -71,8 +72,7 @@ def named_candidate(o, msg):
     if not m:
         return None
     name = m.group(1)
-    cd = o.record['cdict']
-    hits = [cid for cid, d in cd.items() if d['name'] == name]
+    hits = [cid for cid, nm in o.names.items() if nm == name]
     return hits[0] if len(hits) == 1 else None
 
 
@@ -84,7 +84,7 @@ def nonlog(o):
 
 
 def name2cid(o):
-    return {d['name']: cid for cid, d in o.record['cdict'].items()}
+    return {nm: cid for cid, nm in o.names.items()}
 
 
 TIE_RE = re.compile(r'^Break tie(?: by (prior stage|lot))? \(([^)]*)\): \[(.*)\] -> (.*)$')
@@ -132,3 +132,10 @@ def reaches(ar, vote, quota):
     if ar.exact_flag:
         return ar.gt(vote, quota)
     return ar.ge(vote, quota)
+
+
+def header_quota(o):
+    "the count's first quota: the record header's, or (when the header is absent - C18 judges that) the first counted action's"
+    if 'quota' in o.record:
+        return frac(o.record['quota'])
+    return next(a['quota'] for a in o.actions if a['tag'] != 'log')
